@@ -336,9 +336,8 @@ PROPS = {
     },
     "C08": {
         "lean_modules": ["Dbg.Props.C08"],
-        "theorems": ["Msp.C08_pieces_exact", "Msp.C08_pieces_cover", "Msp.extsFromSliceBounds_eq"],
-        "partial": ["C08_bucket_pure_full (the bucket clause: stated as a Prop in Props/C08.lean, not yet proved; decided so far only by "
-                    "evaluating BucketsPure on the implementation's pieces for every generated read set)"],
+        "theorems": ["Msp.C08_bucket_pure", "Msp.C08_bucket_strand_symmetric", "Msp.C08_pieces_exact", "Msp.C08_pieces_cover", "Msp.extsFromSliceBounds_eq"],
+        "partial": [],
         "n_quick": 4000, "n_thorough": 200000,
         "nontrivial": _c08_nontrivial, "tags": _c08_tags, "shrink": _c08_shrink,
         "rule": "requests `msp k p rc perm container reads`: 1-5 reads per set (random, tandem, homopolymer, palindromic, chunk-pasted; a third "
